@@ -24,8 +24,8 @@ Definition model (i : input) : obs :=
   | IRepr isb s ml np =>
       if agree i then ORepr (text_repr_tok isb (nonprint_of np) s ml) true else OBad
   | IDesc _ modelled hm => if modelled then ODesc (expected_kinds hm) else OBad
-  | ITest pre steps =>
-      let r := run_test pre steps in
+  | ITest p =>
+      let r := run_test p in
       match r_details r with
       | Some ds => OTest (r_raised r) (r_after_ran r) (r_outcome r) (payload ds)
       | None => OBad
@@ -45,7 +45,7 @@ Definition obs_eqb (a b : obs) : bool :=
   | ORepr x e, ORepr y f => list_eqb N.eqb x y && Bool.eqb e f
   | ODesc x, ODesc y => list_eqb okind_eqb x y
   | OTest r a oc d, OTest r' a' oc' d' =>
-      list_eqb Bool.eqb r r' && Bool.eqb a a' && outcome_eqb oc oc' && list_eqb Nat.eqb (tokens d) (tokens d')
+      list_eqb (list_eqb Bool.eqb) r r' && Bool.eqb a a' && outcome_eqb oc oc' && list_eqb Nat.eqb (tokens d) (tokens d')
   | OBad, OBad => true
   | _, _ => false
   end.
